@@ -49,7 +49,7 @@ fn games() -> Vec<(&'static str, Tree)> {
 
 /// games for the full-view permutation pass: a player with three and more multi-action infosets,
 /// and one whose infosets list the same action names in different orders
-fn permutation_games() -> Vec<(String, Tree)> {
+pub fn permutation_games() -> Vec<(String, Tree)> {
     let mut res: Vec<(String, Tree)> = vec![
         ("hidden_then_own".into(), crate::universe::hidden_then_own()),
         ("kuhn".into(), crate::universe::kuhn()),
